@@ -6,6 +6,7 @@
    Partial-correctness statements in the style of WfGrid.v / WfInv.v; no
    structural invariant ([screen_ok]) is needed at all. *)
 Require Import Tac ListN Utf8 Width Attrs Cell Row Grid Screen Vte Perform Parser.
+Require Import Chunking.
 Require Import CellWf WfGrid SgrSpec.
 Open Scope N_scope.
 
@@ -771,7 +772,7 @@ Qed.
 
 Theorem process_attrs_ok p bs q : process p bs = Ok q -> screen_attrs_ok (scr p) -> screen_attrs_ok (scr q).
 Proof.
-  unfold process. intros E H. destruct (advance (vt p) bs) as [v acts].
+  rewrite process_unfold. intros E H. destruct (advance (vt p) _) as [v acts].
   binv E as p1 E1. destruct p1 as [s evs]. inv E. cbn [scr]. eapply perform_all_attrs_ok; eauto.
 Qed.
 
